@@ -146,6 +146,9 @@ void Variable::removeAllEquivalences()
         }
     }
     pFunc()->mEquivalentVariables.clear();
+    // The identifiers belong to the equivalences that have just been removed.
+    pFunc()->mMappingIdMap.clear();
+    pFunc()->mConnectionIdMap.clear();
 }
 
 VariablePtr Variable::equivalentVariable(size_t index) const
